@@ -1,5 +1,6 @@
 import Proofs.ObsValue
 import Proofs.ObsMulti
+import Proofs.ObsGenEq
 
 /-!
 # C15 — observation handling is value-correct and batch-, agent- and env-consistent
@@ -367,3 +368,212 @@ example : (maybeAddBatchDim ⟨[1, 1, 2, 2], []⟩ [1, 2, 2]).toOption.map (·.s
 example : (maybeAddBatchDim ⟨[2, 3, 1], []⟩ []).toOption.map (·.shape) = none := by decide
 
 end Obs
+
+/-!
+## C15 over the SOURCE TRANSLATION
+
+`Gen/ObsGen.lean` is generated by `harness/py2lean_obs.py` from the source text of
+`agilerl/utils/algo_utils.py` (`obs_channels_to_first`, `obs_to_tensor`, `maybe_add_batch_dim`, `get_vect_dim`,
+`preprocess_observation`; the SHAPE logic: an observation is its container kind and shape, a space its kind,
+parameters and children; values are cut) and regenerated by `harness/c15.py::pre_gate` on every run.
+`Proofs/ObsGenEq.lean` proves the generated definitions equal to the shape projection of `Model/Obs.lean`; the
+theorems below restate the shape theorems of C15 over the generated definitions, so they are re-checked
+against what the code says now.
+-/
+namespace C15Src
+open ObsGen ObsGenEq
+
+/-- every generated definition equals the shape projection of the hand-written model function: for every
+    container kind, every input shape (accepted or rejected), with and without normalisation -/
+theorem C15_source_translation_equalities (fuel : Nat) (k : ArrKind) (norm : Bool) (sp : Obs.Leaf)
+    (t : Obs.Tensor) (p : List Nat) :
+    (k ≠ .number → maybe_add_batch_dim (.arr k t.shape) p = proj k (Obs.maybeAddBatchDim t p)) ∧
+    get_vect_dim (fuel + 1) (.arr k t.shape) (ofLeaf sp) = .ok (Obs.getVectDim t.shape sp.obsShape) ∧
+    obs_to_tensor (.arr k t.shape) = .ok (.arr .tensor t.shape) ∧
+    ((∀ nv, sp = .multiDiscrete nv → nv ≠ []) → NoValueError (Obs.preprocess norm sp t) →
+      preprocess_observation (fuel + 1) (.arr k t.shape) (ofLeaf sp) norm =
+        proj .tensor (Obs.preprocess norm sp t)) :=
+  ⟨fun hk => gen_maybe_add_batch_dim_eq k hk t p, gen_get_vect_dim_leaf_eq fuel k t.shape sp,
+   gen_obs_to_tensor_arr k t.shape, fun h1 h2 => gen_preprocess_leaf_eq fuel k norm sp t h1 h2⟩
+
+theorem wellFormed_md {sp : Obs.Leaf} (h : Obs.WellFormed sp) : ∀ nv, sp = .multiDiscrete nv → nv ≠ [] := by
+  intro nv e; subst e; exact h.1
+
+/-- **Output shape, over the generated code.**  For every space kind, every container (ndarray, tensor, Python
+    number), with or without normalisation, and every accepted input form — unbatched `[]`, batched `[B]`,
+    batch-of-one `[1]`, (step, env) `[T, E]` — the generated `preprocess_observation` accepts and returns a
+    TENSOR of shape `[number of observations] ++ network input shape`: exactly one batch dimension in front. -/
+theorem C15_source_translation_output_shape (fuel : Nat) (k : ArrKind) (norm : Bool) (sp : Obs.Leaf)
+    (hsp : Obs.WellFormed sp) (batch : List Nat) (hb : batch.length ≤ 2) :
+    preprocess_observation (fuel + 1) (.arr k (batch ++ sp.obsShape)) (ofLeaf sp) norm =
+      .ok (.arr .tensor (Obs.numel batch :: sp.netShape)) := by
+  have hm := Obs.preprocess_batch norm sp hsp batch hb [] (by simp)
+  have := gen_preprocess_leaf_eq fuel k norm sp ⟨batch ++ sp.obsShape, [].flatten⟩ (wellFormed_md hsp)
+    (noValueError_ok hm)
+  rw [this, hm]; rfl
+
+/-- **(step, env) inputs are flattened to `step * env` rows**, over the generated code: the input
+    `[T, E] ++ space.shape` gives the same result as the flattened batch `[T * E] ++ space.shape`, namely
+    `[T * E] ++ network shape`; at the level of `maybe_add_batch_dim`, for ndarray and tensor alike -/
+theorem C15_source_translation_step_env (fuel : Nat) (k : ArrKind) (norm : Bool) (sp : Obs.Leaf)
+    (hsp : Obs.WellFormed sp) (T E : Nat) (p : List Nat) (hp : 0 < Obs.numel p) :
+    preprocess_observation (fuel + 1) (.arr k (T :: E :: sp.obsShape)) (ofLeaf sp) norm =
+      preprocess_observation (fuel + 1) (.arr k ((T * E) :: sp.obsShape)) (ofLeaf sp) norm ∧
+    preprocess_observation (fuel + 1) (.arr k (T :: E :: sp.obsShape)) (ofLeaf sp) norm =
+      .ok (.arr .tensor ((T * E) :: sp.netShape)) ∧
+    (k ≠ .number → maybe_add_batch_dim (.arr k (T :: E :: p)) p = .ok (.arr k ((T * E) :: p))) := by
+  have h1 := C15_source_translation_output_shape fuel k norm sp hsp [T, E] (by simp)
+  have h2 := C15_source_translation_output_shape fuel k norm sp hsp [T * E] (by simp)
+  simp only [List.cons_append, List.nil_append, Obs.numel, Nat.mul_one] at h1 h2
+  refine ⟨by rw [h1, h2], h1, fun hk => ?_⟩
+  have := gen_maybe_add_batch_dim_eq k hk ⟨T :: E :: p, []⟩ p
+  have hm := Obs.mabd_batch [T, E] p [] (by simp) hp
+  simp only [List.cons_append, List.nil_append] at hm
+  rw [this, hm]
+  simp [proj, Obs.numel]
+
+/-- **Batch size = `get_vect_dim`**, over the generated code: a batched observation is recognised as `N`
+    environments, an unbatched one as 1 — for every space kind incl. MultiBinary and every container incl. a
+    Python number — and this is the leading dimension `preprocess_observation` produces -/
+theorem C15_source_translation_vect_dim (fuel : Nat) (k : ArrKind) (norm : Bool) (sp : Obs.Leaf)
+    (hsp : Obs.WellFormed sp) (N : Nat) :
+    get_vect_dim (fuel + 1) (.arr k (N :: sp.obsShape)) (ofLeaf sp) = .ok N ∧
+    get_vect_dim (fuel + 1) (.arr k sp.obsShape) (ofLeaf sp) = .ok 1 ∧
+    preprocess_observation (fuel + 1) (.arr k (N :: sp.obsShape)) (ofLeaf sp) norm =
+      .ok (.arr .tensor (N :: sp.netShape)) ∧
+    preprocess_observation (fuel + 1) (.arr k sp.obsShape) (ofLeaf sp) norm =
+      .ok (.arr .tensor (1 :: sp.netShape)) := by
+  have v := Obs.C15_vect_dim norm sp hsp N [] (by simp)
+  have h1 := C15_source_translation_output_shape fuel k norm sp hsp [N] (by simp)
+  have h2 := C15_source_translation_output_shape fuel k norm sp hsp [] (by simp)
+  simp only [List.cons_append, List.nil_append, Obs.numel, Nat.mul_one] at h1 h2
+  refine ⟨?_, ?_, h1, h2⟩
+  · rw [gen_get_vect_dim_leaf_eq, v.1]
+  · rw [gen_get_vect_dim_leaf_eq, v.2.1]
+
+/-- Dict / Tuple observations: the generated `get_vect_dim` looks at the FIRST item of the observation, paired
+    with the space member of the same key (Dict) / at member 0 (Tuple) -/
+theorem C15_source_translation_vect_dim_members (fuel : Nat) (td : Bool) (key : String) (k : ArrKind)
+    (s : List Nat) (rest : List (String × ObsGen.Obs)) (members : List (String × Space)) (sp : Obs.Leaf)
+    (hkey : pyLookup key members = .ok (ofLeaf sp)) (trest : List ObsGen.Obs) (ms : List Space)
+    (more : List (Obs.Leaf × List Nat)) :
+    get_vect_dim (fuel + 2) (.dict td ((key, .arr k s) :: rest)) (.dict members) =
+      .ok (Obs.getVectDimAll ((sp, s) :: more)) ∧
+    get_vect_dim (fuel + 2) (.tuple (.arr k s :: trest)) (.tuple (ofLeaf sp :: ms)) =
+      .ok (Obs.getVectDimAll ((sp, s) :: more)) :=
+  ⟨gen_get_vect_dim_dict_eq fuel td key k s rest members sp hkey more,
+   gen_get_vect_dim_tuple_eq fuel k s trest ms sp more⟩
+
+theorem mabd_noValueError (t : Obs.Tensor) (p : List Nat) : NoValueError (Obs.maybeAddBatchDim t p) := by
+  unfold Obs.maybeAddBatchDim
+  constructor <;> (repeat' split) <;> simp
+
+/-- a Box with infinite bounds is never a value error: the model is `maybeAddBatchDim` of the shape -/
+theorem box_inf (norm : Bool) (p : List Nat) (t : Obs.Tensor) :
+    Obs.preprocess norm (.box p [none] [none]) t =
+      (if p = [] then Obs.maybeAddBatchDim ⟨t.shape ++ [1], t.data⟩ [1] else Obs.maybeAddBatchDim t p) := by
+  have ha : Obs.applyNorm p [none] [none] t = .ok t := by simp [Obs.applyNorm, Obs.allSomeR, Obs.allOk]
+  simp only [Obs.preprocess, Obs.preprocessWith, ha, ite_self, bind, Except.bind]
+  by_cases hp : p = [] <;> simp [hp]
+
+/-- **Wrong ranks are rejected, never silently reshaped**, over the generated code: fewer dimensions than the
+    space, or more than two leading dimensions, end in the `ValueError` of `maybe_add_batch_dim` — Box (with or
+    without normalisation) and MultiBinary, every container kind -/
+theorem C15_source_translation_bad_rank_rejected (fuel : Nat) (k : ArrKind) (norm : Bool) (s p : List Nat)
+    (n : Nat) (hp : p ≠ [])
+    (hbox : s.length < p.length ∨ p.length + 2 < s.length) (hmb : s.length < 1 ∨ 3 < s.length) :
+    preprocess_observation (fuel + 1) (.arr k s) (.box p) norm = .error (.raised "ValueError") ∧
+    preprocess_observation (fuel + 1) (.arr k s) (.multiBinary n) norm = .error (.raised "ValueError") := by
+  constructor
+  · have hm : Obs.preprocess norm (.box p [none] [none]) ⟨s, []⟩ = .error .rank := by
+      rw [box_inf, if_neg hp]; exact Obs.mabd_rank_error _ p hbox
+    have := gen_preprocess_box_eq fuel k norm p [none] [none] ⟨s, []⟩ (noValueError_rank hm)
+    rw [this, hm]; rfl
+  · have hm : Obs.preprocess norm (.multiBinary n) ⟨s, []⟩ = .error .rank := by
+      simp only [Obs.preprocess, Obs.preprocessWith]
+      exact Obs.mabd_rank_error _ [n] (by simpa using hmb)
+    have := gen_preprocess_multiBinary_eq fuel k norm n ⟨s, []⟩
+    rw [this, hm]; rfl
+
+/-- **Exactly one batch dimension, whatever the input**, over the generated code: for a Box or MultiBinary
+    space and ANY input shape, if `preprocess_observation` answers at all, the answer is a tensor whose rank is
+    the network input rank + 1 and which has as many elements as the input — nothing is dropped, padded or
+    broadcast -/
+theorem C15_source_translation_one_batch_dim (fuel : Nat) (k : ArrKind) (norm : Bool) (s : List Nat)
+    (sp : Obs.Leaf) (hsp : (∃ p lo hi, sp = .box p lo hi) ∨ ∃ n, sp = .multiBinary n) (o : ObsGen.Obs)
+    (h : preprocess_observation (fuel + 1) (.arr k s) (ofLeaf sp) norm = .ok o) :
+    ∃ s', o = .arr .tensor s' ∧ s'.length = sp.netShape.length + 1 ∧ Obs.numel s' = Obs.numel s := by
+  rcases hsp with ⟨p, lo, hi, rfl⟩ | ⟨n, rfl⟩
+  · have hg := gen_preprocess_box_eq fuel k norm p [none] [none] ⟨s, []⟩
+      (by rw [box_inf]; split <;> exact mabd_noValueError _ _)
+    simp only [ofLeaf] at h
+    rw [h, box_inf] at hg
+    by_cases hp : p = []
+    · subst hp
+      rw [if_pos rfl] at hg
+      cases hm : Obs.maybeAddBatchDim ⟨s ++ [1], []⟩ [1] with
+      | error e => rw [hm] at hg; cases hg
+      | ok t1 =>
+        rw [hm] at hg
+        obtain ⟨h1, h2⟩ := mabd_ok_rank _ t1 _ hm
+        refine ⟨t1.shape, by injection hg, by simpa [Obs.Leaf.netShape] using h1, ?_⟩
+        rw [h2, Obs.numel_append]; simp [Obs.numel]
+    · rw [if_neg hp] at hg
+      cases hm : Obs.maybeAddBatchDim ⟨s, []⟩ p with
+      | error e => rw [hm] at hg; cases hg
+      | ok t1 =>
+        rw [hm] at hg
+        obtain ⟨h1, h2⟩ := mabd_ok_rank _ t1 _ hm
+        refine ⟨t1.shape, by injection hg, ?_, h2⟩
+        cases p with
+        | nil => exact absurd rfl hp
+        | cons d r => simpa [Obs.Leaf.netShape] using h1
+  · have hg := gen_preprocess_multiBinary_eq fuel k norm n ⟨s, []⟩
+    simp only [ofLeaf] at h
+    rw [h] at hg
+    simp only [Obs.preprocess, Obs.preprocessWith] at hg
+    cases hm : Obs.maybeAddBatchDim ⟨s, []⟩ [n] with
+    | error e => rw [hm] at hg; cases hg
+    | ok t1 =>
+      rw [hm] at hg
+      obtain ⟨h1, h2⟩ := mabd_ok_rank _ t1 _ hm
+      exact ⟨t1.shape, by injection hg, by simpa [Obs.Leaf.netShape] using h1, h2⟩
+
+/-- **Dict / Tuple: member by member**, over the generated code: a Dict observation (a `dict` or a TensorDict)
+    is prepared item by item, each item with the space member of ITS key, in the observation's order; a Tuple
+    observation position by position; the result is the model's `preprocessAll` (the composite is accepted iff
+    every member is — `C15_member_by_member` — and the first failure wins) -/
+theorem C15_source_translation_member_by_member (fuel : Nat) (td : Bool) (norm : Bool)
+    (members : List (String × Space)) (ms : List Member)
+    (hkeys : ∀ m ∈ ms, pyLookup m.1 members = .ok (ofLeaf m.2.2.1)) (hok : MembersOk norm ms) :
+    preprocess_observation (fuel + 2) (.dict td (ms.map Member.item)) (.dict members) norm =
+      projAll (fun os => .dict false (List.zip (ms.map (·.1)) os))
+        (Obs.preprocessAll norm (ms.map Member.model)) ∧
+    preprocess_observation (fuel + 2) (.tuple (ms.map (fun m => (Member.item m).2)))
+        (.tuple (ms.map (fun m => ofLeaf m.2.2.1))) norm =
+      projAll (fun os => .tuple os) (Obs.preprocessAll norm (ms.map Member.model)) :=
+  ⟨gen_preprocess_dict_eq fuel td norm members ms hkeys hok, gen_preprocess_tuple_eq fuel norm ms hok⟩
+
+/-- **Conversion and channel order**, over the generated code: `obs_to_tensor` turns an ndarray, a tensor or a
+    Python number into a tensor of the SAME shape; `obs_channels_to_first` moves the last axis of a rank-3 /
+    rank-4 ndarray in front of the two spatial axes (a batch stays a batch), leaves other ranks alone and
+    rejects anything that is not an ndarray or dict -/
+theorem C15_source_translation_conversion (fuel : Nat) (k : ArrKind) (s : List Nat) (H W C B : Nat) :
+    obs_to_tensor (.arr k s) = .ok (.arr .tensor s) ∧
+    obs_channels_to_first (fuel + 1) (.arr .ndarray [H, W, C]) false = .ok (.arr .ndarray [C, H, W]) ∧
+    obs_channels_to_first (fuel + 1) (.arr .ndarray [B, H, W, C]) false = .ok (.arr .ndarray [B, C, H, W]) ∧
+    obs_channels_to_first (fuel + 1) (.arr .ndarray [H, W, C]) true = .ok (.arr .ndarray [1, C, H, W]) ∧
+    obs_channels_to_first (fuel + 1) (.arr .tensor s) false = .error (.raised "TypeError") :=
+  ⟨gen_obs_to_tensor_arr k s, (gen_channels_first_image fuel H W C B).1, (gen_channels_first_image fuel H W C B).2.1,
+   (gen_channels_first_image fuel H W C B).2.2, (gen_channels_first_type_error fuel s false).1⟩
+
+/-! non-vacuity of the hypotheses over the generated definitions -/
+example : preprocess_observation 1 (.arr .ndarray [2, 3, 2]) (.multiDiscrete [2, 3]) true =
+    .ok (.arr .tensor [6, 5]) := by rfl
+example : preprocess_observation 1 (.arr .number []) (.box []) true = .ok (.arr .tensor [1, 1]) := by rfl
+example : preprocess_observation 1 (.arr .tensor [2, 2, 2, 2]) (.box [2]) false =
+    .error (.raised "ValueError") := by rfl
+example : get_vect_dim 2 (.dict false [("pos", .arr .ndarray [7, 2]), ("lane", .arr .ndarray [7])])
+    (.dict [("lane", .discrete 3), ("pos", .box [2])]) = .ok 7 := by rfl
+
+end C15Src
